@@ -56,7 +56,7 @@ impl Completions {
     }
 
     pub(crate) fn poll(&mut self, shared: &Shared, timeout: Option<Duration>) -> io::Result<()> {
-        let mut head = load_kernel_shared(self.entries_head);
+        let head = load_kernel_shared(self.entries_head);
         let mut tail = load_kernel_shared(self.entries_tail);
         // NOTE: the head and tail are free running 32 bit counters that wrap
         // around, so they can only be compared for (in)equality.
@@ -84,8 +84,16 @@ impl Completions {
         }
 
         debug_assert!(tail.wrapping_sub(head) <= self.entries_len);
-        while head != tail {
-            let index = (head & (self.entries_len - 1)) as usize;
+        // NOTE: processing a completion runs user code (a `Waker`, the `Drop`
+        // implementations of the resources of a dropped operation), which might
+        // panic. Make sure the head is updated in that case as well, otherwise
+        // the next call would process the same completions again.
+        let mut head = UpdateHead {
+            head,
+            entries_head: self.entries_head,
+        };
+        while head.head != tail {
+            let index = (head.head & (self.entries_len - 1)) as usize;
             // SAFETY: see below.
             let ptr = unsafe { self.entries.add(index).as_ptr() };
             // NOTE: initially poisoned in Completions::new.
@@ -93,18 +101,15 @@ impl Completions {
             // SAFETY: the pointer is valid and we've ensured above that the
             // kernel has written a new completion.
             let completion = unsafe { &*ptr };
-            log::trace!(completion:?, index, head; "dequeued completion");
+            log::trace!(completion:?, index, head = head.head; "dequeued completion");
+            head.head = head.head.wrapping_add(1);
             // SAFETY: we're only processing the completion once.
             unsafe { completion.process() };
             // NOTE: poisoned before the processing above.
             asan::poison(ptr);
-            head = head.wrapping_add(1);
         }
-
-        #[cfg(a10_verif)]
-        crate::verif::sched_point(crate::verif::STORE_CQ_HEAD, self.entries_head.as_ptr().addr());
         // Let the kernel write more completions.
-        unsafe { (&*self.entries_head.as_ptr()).store(head, Ordering::Release) };
+        drop(head);
 
         Ok(())
     }
@@ -158,6 +163,22 @@ impl Completions {
                 break; // No more completions to process.
             }
         }
+    }
+}
+
+/// Updates the head of the completion queue when dropped, see
+/// [`Completions::poll`].
+struct UpdateHead {
+    head: u32,
+    entries_head: ptr::NonNull<AtomicU32>,
+}
+
+impl Drop for UpdateHead {
+    fn drop(&mut self) {
+        #[cfg(a10_verif)]
+        crate::verif::sched_point(crate::verif::STORE_CQ_HEAD, self.entries_head.as_ptr().addr());
+        // SAFETY: `entries_head` is a valid pointer, see `Completions`.
+        unsafe { (&*self.entries_head.as_ptr()).store(self.head, Ordering::Release) };
     }
 }
 
